@@ -10,6 +10,9 @@ Streams
                                                                    impl vs Tables/Model (A), PMS (B)
   wrap    the bash wrapper's OPTIONS (--dest/--insoptions/--diroptions), expanded by real bash
                                                                    impl vs Model.wrapper_opts (A)
+  insopts random install option strings (-m incl. set-id/sticky, -o/-g/--owner/--group, -p, and
+          spellings that fall back to install(1)) through _parse_install_options
+                                                                   impl vs Model.install_full (A)
   helper  random source trees + helper invocations through the real IPC classes (all helpers
           instantiated in the ebd's order, fake op / fake ebd, image in a scratch dir):
           image snapshot (paths, types, modes, content ids, link counts, symlink targets)
@@ -550,6 +553,11 @@ CORPUS = [
     ("dohard", "4", ["usr/bin/foo", "/usr/bin/hl"], {}, 0o022, []),
     ("keepdir", "7", ["/var/lib/x"], {"diroptions": "-m0750"}, 0o022, []),
     ("dobin", "7", ["a.txt"], {"desttree": "/usr"}, 0o022, []),
+    # set-id modes together with owner/group options: the mode must survive the chown
+    ("doexe", "7", ["a.txt"], {"exedesttree": "/opt/x", "exeoptions": "-m4711 -o %(uid)s -g %(gid)s"}, 0o022, []),
+    ("doins", "7", ["a.txt", "x.html"], {"insdesttree": "/usr/share/foo", "insoptions": "-g %(gid)s -m2755"}, 0o022, []),
+    ("dolib", "6", ["a.txt"], {"liboptions": "--owner=%(uid)s -m 6755"}, 0o022, []),
+    ("doexe", "7", ["a.txt"], {"exedesttree": "/opt/x", "exeoptions": "-m4755"}, 0o022, []),
 ]
 
 
@@ -818,16 +826,61 @@ def classes_of(case, res=None):
 
 
 # ------------------------------------------------------------------ generators
+def owner_words(rng):
+    """-o/-g options naming ids the process may chown to: anything as root, else its own ids"""
+    if os.geteuid() == 0:
+        uid, gid = rng.choice(["0", "root", "1"]), rng.choice(["0", "root", "2"])
+    else:
+        uid, gid = str(os.getuid()), str(os.getgid())
+    out = []
+    if rng.random() < 0.8:
+        out.append(rng.choice(["-o " + uid, "-o" + uid, "--owner=" + uid, "--owner " + uid]))
+    if rng.random() < 0.8 or not out:
+        out.append(rng.choice(["-g " + gid, "-g" + gid, "--group=" + gid, "--group " + gid]))
+    rng.shuffle(out)
+    return out
+
+
+def setid_options(rng):
+    """an option string combining a set-id / sticky mode with owner/group options, in random order"""
+    words = [rng.choice(["-m4711", "-m2755", "-m 4755", "-m6755", "-m1777", "--mode=2711", "-m4750", "-m0644"])] + owner_words(rng)
+    rng.shuffle(words)
+    return " ".join(words)
+
+
+def expected_owner(opts):
+    """(uid, gid) an option string asks for; None = unchanged"""
+    toks, uid, gid, i = opts.split(), None, None, 0
+    ident = lambda v: 0 if v == "root" else int(v)
+    while i < len(toks):
+        t = toks[i]
+        if t in ("-o", "--owner"):
+            uid = ident(toks[i + 1]); i += 1
+        elif t in ("-g", "--group"):
+            gid = ident(toks[i + 1]); i += 1
+        elif t.startswith("--owner="):
+            uid = ident(t[8:])
+        elif t.startswith("--group="):
+            gid = ident(t[8:])
+        elif t.startswith("-o"):
+            uid = ident(t[2:])
+        elif t.startswith("-g"):
+            gid = ident(t[2:])
+        i += 1
+    return uid, gid
+
+
 def gen_shvars(rng):
     pick = rng.choice
+    sid = lambda: setid_options(rng)
     return {"desttree": pick(["/usr", "/usr", "/usr", "/opt/foo", "", "/usr/local"]),
             "insdesttree": pick(["", "/usr/share/foo", "/etc", "/usr/share//x/", "opt/rel", "/usr/share/./bar"]),
             "exedesttree": pick(["", "/usr/libexec/foo", "/opt/x", "/etc/init.d"]),
             "docdesttree": pick(["", "", "html", "examples/a", "/abs"]),
             "pf": "pn-1.0", "libdir": pick(["lib", "lib64"]),
-            "insoptions": pick(["-m0644", "-m0644", "-m0600", "-m 0640", "--mode=0444", "--mode 0604"]),
-            "exeoptions": pick(["-m0755", "-m0755", "-m0700", "-m 0750"]),
-            "liboptions": pick(["-m0644", "-m0755", "-m0640"]),
+            "insoptions": pick(["-m0644", "-m0644", "-m0600", "-m 0640", "--mode=0444", "--mode 0604", sid(), sid()]),
+            "exeoptions": pick(["-m0755", "-m0755", "-m0700", "-m 0750", "-m4755", sid(), sid()]),
+            "liboptions": pick(["-m0644", "-m0755", "-m0640", sid()]),
             "diroptions": pick(["-m0755", "-m0755", "-m0750", "-m 0700", "--mode 0711"])}
 
 
@@ -1031,7 +1084,7 @@ def main(chk: Check):
     chk_n = lambda q, t: max(5, int(_n(q, t) * scale))
     chk.rule("helper: random source trees (regular files with man/html/mo/compressed names, nested directories, "
              "symlinks to files/directories, dangling links) x helper x EAPI 0-8 x into/insinto/exeinto/docinto and "
-             "option strings x pre-populated image, through the real IPC classes; non-trivial = the invocation "
+             "option strings (incl. set-id/sticky modes combined with -o/-g) x pre-populated image, through the real IPC classes; non-trivial = the invocation "
              "creates at least one image entry or is refused for a PMS reason; dosymr: non-trivial = target and "
              "link directory differ after normalisation")
     try:
@@ -1162,6 +1215,28 @@ def main(chk: Check):
     chk.count("wrap", len(wrap_cases))
 
     lap("gate+wrap")
+    # ---- insopts stream: the option-string parser itself
+    io_cases = []
+    from snakeoil.cli import arghparse as _ah
+    io_obj = impl.ebd_ipc.Doins(Op(impl.FakePkg("cat/pn-1.0", eapi="7", slot="0"), "/c33-no-such-image/"))
+
+    def parse_opts(sopt):
+        ns = _ah.Namespace()
+        if not io_obj._parse_install_options(shlex.split(sopt), ns):
+            return Err("fallback")
+        return [ns.mode, ns.owner, ns.group, bool(ns.preserve_timestamps)]
+    for _ in range(chk_n(120, 1200)):
+        r0 = rng.random()
+        if r0 < 0.7:
+            sopt = setid_options(rng) + (" -p" if rng.random() < 0.2 else "")
+        elif r0 < 0.85:
+            sopt = rng.choice(["-m0644", "-m 755", "--mode=0444", "--mode 1777", "-p", "-m0644 -p", "-m4755 -m0711"])
+        else:
+            sopt = rng.choice(["-m u+x", "-s", "-D -m0644", "-m0644 -v", "--strip", "-m 0x1"])
+        io_cases.append((cstr(sopt), impl_call(parse_opts, sopt, kinds={"*": "error"})))
+        chk.nontrivial(("insopts", sopt))
+    chk.count("insopts", len(io_cases))
+    chk.sample({"stream": "insopts", "input": "-m4711 -o 0 -g 0", "impl": impl_call(parse_opts, "-m4711 -o 0 -g 0")})
     # ---- helper stream
     trees = []
     for t in range(chk_n(6, 24)):
@@ -1174,7 +1249,8 @@ def main(chk: Check):
     for h, e, a, shu, um, pre_spec in CORPUS:
         sh = dict(desttree="/usr", insdesttree="", exedesttree="", docdesttree="", pf="pn-1.0", libdir="lib",
                   insoptions="-m0644", exeoptions="-m0755", liboptions="-m0644", diroptions="-m0755")
-        sh.update(shu)
+        ids = {"uid": os.geteuid(), "gid": os.getegid()}
+        sh.update({k: (v % ids if "%(" in v else v) for k, v in shu.items()})
         case = {"helper": h, "eapi": e, "sh": sh, "cat": "cat", "pn": "pn", "slot": "0", "umask": um, "tree_dir": ctd,
                 "pre_spec": list(pre_spec), "nonfatal": True}
         if h in ("dosym", "dohard", "dodir", "keepdir"):
@@ -1228,6 +1304,17 @@ def main(chk: Check):
                 chk.nontrivial(("helper", h, e, tuple(a for a, _ in case["args"]), res.kind))
         elif snap is not None and len(snap) > len(case["pre"]):
             chk.nontrivial(("helper", h, e, tuple(a for a, _ in case["args"]), case["sh"]["desttree"], case["sh"]["insdesttree"]))
+        # ownership asked for with -o/-g in insopts/exeopts/libopts (compared here; the image model has no owners)
+        optvar = {"doins": "insoptions", "doexe": "exeoptions", "dolib": "liboptions"}.get(h)
+        if optvar and snap is not None and not isinstance(res, Err):
+            wu, wg = expected_owner(case["sh"][optvar])
+            wu = os.geteuid() if wu is None else wu
+            wg = os.getegid() if wg is None else wg
+            for en in snap:
+                if en[1] == 1 and (en[6], en[7]) != (wu, wg):
+                    chk.violation("property", {"what": f"{h}: file {'/'.join(en[0])} owned by {en[6]}:{en[7]}, "
+                                                       f"options ask for {wu}:{wg}", "input": case["show"]})
+                    break
         # ownership of dobin/dosbin files (compared here, not modelled)
         if h in ("dobin", "dosbin") and snap is not None and not isinstance(res, Err) and os.geteuid() == 0:
             for en in snap:
@@ -1269,7 +1356,7 @@ def main(chk: Check):
     if not can_eval:
         return
     import concurrent.futures as cf
-    ex = cf.ThreadPoolExecutor(max_workers=5)
+    ex = cf.ThreadPoolExecutor(max_workers=6)
     futs = {
         "path": ex.submit(chk.coq_eval, "path", IMPORTS, "N * str * str", path_cases, ["mismatches run_path cases"]),
         "dosymr": ex.submit(chk.coq_eval, "dosymr", IMPORTS, "str * str", ds_cases,
@@ -1277,6 +1364,7 @@ def main(chk: Check):
         "gate": ex.submit(chk.coq_eval, "gate", IMPORTS, "str * str", gate_cases,
                           ["mismatches run_gate cases", "where_ (fun i r => negb (spec_gate_ok i r)) cases"]),
         "wrap": ex.submit(chk.coq_eval, "wrap", IMPORTS, "str * str * shvars", wrap_cases, ["mismatches run_wrap cases"]),
+        "insopts": ex.submit(chk.coq_eval, "insopts", IMPORTS, "str", io_cases, ["mismatches run_insopts cases"]),
         "helper": ex.submit(chk.coq_eval, "helper", IMPORTS, "inv", hcases,
                             ["mismatches run_helper cases", "where_ (fun i r => negb (spec_helper_ok i r)) cases"], 100),
     }
@@ -1295,6 +1383,9 @@ def main(chk: Check):
     r = futs["gate"].result()
     if r is not None:
         report(chk, "gate", gate_cases, None, r[0], r[1], "EAPI gate / banned helper differs from PMS")
+    r = futs["insopts"].result()
+    if r is not None:
+        report(chk, "insopts", io_cases, None, r[0], [], "")
     r = futs["wrap"].result()
     if r is not None:
         report(chk, "wrap", wrap_cases, wrap_meta, r[0], [], "")
